@@ -26,9 +26,30 @@ static mut LOG: [Ev; CAP] = [Ev {
 
 pub struct Ledger;
 
+/// The allocator is also *hostile about alignment*: a block is aligned to exactly
+/// what the layout asks for and never to more (address = align mod 2*align), which
+/// is what a conforming allocator may do and glibc's malloc (always 16) never does.
+/// Code that relies on an alignment it did not request shows up natively, not only
+/// under Miri. The block ends flush with the underlying allocation, so ASan's red
+/// zone still starts right behind it.
+#[inline]
+fn outer(l: Layout) -> Option<Layout> {
+    Layout::from_size_align(l.size().checked_add(l.align())?, l.align().checked_mul(2)?).ok()
+}
+
 unsafe impl GlobalAlloc for Ledger {
     unsafe fn alloc(&self, l: Layout) -> *mut u8 {
-        let p = System.alloc(l);
+        let p = match outer(l) {
+            Some(o) => {
+                let b = System.alloc(o);
+                if b.is_null() {
+                    b
+                } else {
+                    b.add(l.align())
+                }
+            }
+            None => core::ptr::null_mut(),
+        };
         if RECORDING.load(Ordering::Relaxed) {
             push(Ev {
                 is_alloc: true,
@@ -48,26 +69,11 @@ unsafe impl GlobalAlloc for Ledger {
                 align: l.align(),
             });
         }
-        System.dealloc(p, l)
+        // a wrong layout here (what C16 watches for) gives the system allocator a
+        // pointer it never handed out: glibc aborts, the crash monitor reports it
+        System.dealloc(p.sub(l.align()), outer(l).unwrap())
     }
-    unsafe fn realloc(&self, p: *mut u8, l: Layout, new_size: usize) -> *mut u8 {
-        let q = System.realloc(p, l, new_size);
-        if RECORDING.load(Ordering::Relaxed) {
-            push(Ev {
-                is_alloc: false,
-                ptr: p as usize,
-                size: l.size(),
-                align: l.align(),
-            });
-            push(Ev {
-                is_alloc: true,
-                ptr: q as usize,
-                size: new_size,
-                align: l.align(),
-            });
-        }
-        q
-    }
+    // realloc: the default (alloc + copy + dealloc), so both events are recorded
 }
 
 unsafe fn push(e: Ev) {
